@@ -746,9 +746,9 @@ def run(rep, tier, seed):
     # the PROCESS's zone there - a zone-less value must read back and equal itself wherever the process runs
     for s_ in ("2021-10-03T02:15:00", "2021-10-03T02:00:00", "2021-04-04T01:45:00", "2022-10-02T02:29:59.999999999", "2021-03-28T02:30:00", "2021-10-31T02:30:00", "2021-03-14T02:30:00", "2021-11-07T01:30:00",
                "2021-09-26T02:45:00", "2011-12-30T12:00:00"):
-        items.append(("dt", s_))
+        items.insert((61 * (1 + len(s_) + sum(map(ord, s_)))) % max(1, len(items)), ("dt", s_))  # spread over the batches
     for s_ in ("02:15:00", "02:30:00", "01:45:00"):
-        items.append(("t", s_))
+        items.insert((61 * sum(map(ord, s_))) % max(1, len(items)), ("t", s_))
     rep.extra["whole_minute_offsets_enumerated"] = len(offs) // 2 - 2
     # bases for corruption: valid literals of every kind
     valid = {}
